@@ -1222,3 +1222,99 @@ func iterStop(lp *loopInfo, start *ssa.BasicBlock) map[*ssa.BasicBlock]bool {
 	}
 	return stop
 }
+
+// symInt evaluates an integer-valued symbolic expression given values for its leaves (leaf returns ok=false for "not a
+// leaf"); comparisons evaluate to 0/1.
+func symInt(s *Sym, leaf func(*Sym) (int64, bool)) (int64, bool) {
+	if v, ok := leaf(s); ok {
+		return v, true
+	}
+	switch s.Op {
+	case "const":
+		if s.Const != nil {
+			switch s.Const.Kind() {
+			case constant.Int:
+				if v, ok := constant.Int64Val(s.Const); ok {
+					return v, true
+				}
+				if u, ok := constant.Uint64Val(s.Const); ok {
+					return int64(u), true
+				}
+			case constant.Bool:
+				if constant.BoolVal(s.Const) {
+					return 1, true
+				}
+				return 0, true
+			}
+		}
+	case "convert":
+		if len(s.Args) == 1 {
+			return symInt(s.Args[0], leaf)
+		}
+	case "unop":
+		if len(s.Args) == 1 {
+			v, ok := symInt(s.Args[0], leaf)
+			if !ok {
+				return 0, false
+			}
+			switch s.Tok {
+			case token.NOT:
+				if v == 0 {
+					return 1, true
+				}
+				return 0, true
+			case token.SUB:
+				return -v, true
+			}
+		}
+	case "binop":
+		a, ok1 := symInt(s.Args[0], leaf)
+		b, ok2 := symInt(s.Args[1], leaf)
+		if !ok1 || !ok2 {
+			return 0, false
+		}
+		bv := func(x bool) (int64, bool) {
+			if x {
+				return 1, true
+			}
+			return 0, true
+		}
+		switch s.Tok {
+		case token.ADD:
+			return a + b, true
+		case token.SUB:
+			return a - b, true
+		case token.MUL:
+			return a * b, true
+		case token.AND:
+			return a & b, true
+		case token.OR:
+			return a | b, true
+		case token.XOR:
+			return a ^ b, true
+		case token.SHL:
+			if b >= 0 && b < 64 {
+				return int64(uint64(a) << uint(b)), true
+			}
+			return 0, true
+		case token.SHR:
+			if b >= 0 && b < 64 {
+				return int64(uint64(a) >> uint(b)), true
+			}
+			return 0, true
+		case token.LSS:
+			return bv(a < b)
+		case token.LEQ:
+			return bv(a <= b)
+		case token.GTR:
+			return bv(a > b)
+		case token.GEQ:
+			return bv(a >= b)
+		case token.EQL:
+			return bv(a == b)
+		case token.NEQ:
+			return bv(a != b)
+		}
+	}
+	return 0, false
+}
